@@ -280,6 +280,19 @@ func writeFreeRule(r *Report, p *Prog, e *Effect, rule string, f *ssa.Function, 
 // foldedFields: fields whose value is handed to a case-folding library function
 // in f or the same-package functions it calls statically.
 func foldedFields(p *Prog, f *ssa.Function, pkgPath string) map[*types.Var]token.Pos {
+	return interpretedFields(p, f, pkgPath, func(name string) bool {
+		return name == "strings.ToLower" || name == "strings.ToUpper" || name == "strings.EqualFold" || name == "unicode.ToLower" || name == "unicode.ToUpper" || name == "strings.ToTitle"
+	})
+}
+
+// numberedFields: fields whose value is handed to a strconv number parser.
+func numberedFields(p *Prog, f *ssa.Function, pkgPath string) map[*types.Var]token.Pos {
+	return interpretedFields(p, f, pkgPath, func(name string) bool {
+		return name == "strconv.Atoi" || name == "strconv.ParseInt" || name == "strconv.ParseUint" || name == "strconv.ParseFloat"
+	})
+}
+
+func interpretedFields(p *Prog, f *ssa.Function, pkgPath string, isInterp func(string) bool) map[*types.Var]token.Pos {
 	out := map[*types.Var]token.Pos{}
 	seen := map[*ssa.Function]bool{}
 	fieldOf := func(v ssa.Value) *types.Var {
@@ -335,7 +348,7 @@ func foldedFields(p *Prog, f *ssa.Function, pkgPath string) map[*types.Var]token
 					continue
 				}
 				name := fullName(sc)
-				if name == "strings.ToLower" || name == "strings.ToUpper" || name == "strings.EqualFold" || name == "unicode.ToLower" || name == "unicode.ToUpper" || name == "strings.ToTitle" {
+				if isInterp(name) {
 					for _, a := range c.Common().Args {
 						if fv := fieldOf(a); fv != nil && fv.Pkg() != nil && fv.Pkg().Path() == pkgPath {
 							if _, ok := out[fv]; !ok {
@@ -359,7 +372,7 @@ func checkC10(r *Report) {
 	e := runEffect(p)
 	effectTrusted(r)
 	const pkg = modPrefix + "semver"
-	r.Explain = "Only structural necessary conditions of 'the canonical string denotes the same version' are decided; equality of Parse(Canon(v)) and v over all strings is not. C10.a CANON-COVER: for the generic version and for each extension (Maven, PEP 440, RubyGems) every field the comparator reads is read by the canonical printer, except fields re-checked as derived from a printed field; otherwise two versions that compare unequal share a canonical string. C10.b FOLD-AGREE: a field the printer case-folds is also case-folded by the comparator (or by a named hand-written folding comparator); otherwise versions that differ in case share a canonical string but compare unequal. C10.c CANON-PURE: Canon, the extensions' canon methods and pypi.CanonVersion write nothing reachable from their operands, so canonicalising twice gives the same string and does not disturb later comparisons."
+	r.Explain = "Only structural necessary conditions of 'the canonical string denotes the same version' are decided; equality of Parse(Canon(v)) and v over all strings is not. C10.a CANON-COVER: for the generic version and for each extension (Maven, PEP 440, RubyGems) every field the comparator reads is read by the canonical printer, except fields re-checked as derived from a printed field; otherwise two versions that compare unequal share a canonical string. C10.b FOLD-AGREE: a field the printer case-folds is also case-folded by the comparator (or by a named hand-written folding comparator), and the printer does not re-read a compared field as a number with strconv unless the comparator does the same (both are to use the package's own classifier); otherwise versions that differ in case share a canonical string but compare unequal. C10.c CANON-PURE: Canon, the extensions' canon methods and pypi.CanonVersion write nothing reachable from their operands, so canonicalising twice gives the same string and does not disturb later comparisons."
 	r.Assume = []string{"a field counts as read by a function if the function or a same-package function it calls statically loads it on some path; path conditions are not compared"}
 	own := fieldOwnerIndex(p.Pkgs[pkg].Types)
 	pairs := []struct{ cmp, canon string }{
@@ -429,6 +442,16 @@ func checkC10(r *Report) {
 				r.ok("C10.b/FOLD-AGREE", key, p.pos(pos), "case-folded by the printer; "+h.why+" in "+h.fn+", which the comparator calls")
 			} else {
 				r.bad("C10.b/FOLD-AGREE", key, p.pos(pos), "the canonical printer case-folds this field but the comparator compares it as stored: two versions that differ only in letter case share a canonical string and compare unequal, and the canonical string does not compare equal to the original")
+			}
+		}
+		pnum, cnum := numberedFields(p, pf, pkg), numberedFields(p, cf, pkg)
+		for fv, pos := range pnum {
+			nm := own(fv) + "." + fv.Name()
+			key := pr.cmp + " / " + pr.canon + ": numeric reading of " + nm
+			if _, ok := cnum[fv]; ok {
+				r.ok("C10.b/FOLD-AGREE", key, p.pos(pos), "parsed as a number by the printer and by the comparator")
+			} else {
+				r.bad("C10.b/FOLD-AGREE", key, p.pos(pos), "the canonical printer parses this field as a number with strconv on its own, while the comparator decides what counts as numeric elsewhere (its own classifier): where the two disagree (leading zeros, per-system rules) the canonical string is a different version from the original")
 			}
 		}
 		writeFreeRule(r, p, e, "C10.c/CANON-PURE", pf, "canonical printer", "canonicalising a version changes it, so a second Canon or a later comparison can give a different answer")
@@ -748,4 +771,207 @@ func checkC11(r *Report) {
 			r.bad("C11.c/PRINT-PURE", n, "", "function not found: anchor lost")
 		}
 	}
+}
+
+// constReturns: the integer constants a three-way comparator returns directly.
+func constReturns(f *ssa.Function) map[int64]token.Pos {
+	out := map[int64]token.Pos{}
+	var fromVal func(v ssa.Value, pos token.Pos, d int)
+	fromVal = func(v ssa.Value, pos token.Pos, d int) {
+		if d > 4 {
+			return
+		}
+		switch x := v.(type) {
+		case *ssa.Const:
+			if x.Value != nil && x.Value.Kind() == constant.Int {
+				if n, ok := constant.Int64Val(x.Value); ok {
+					if _, seen := out[n]; !seen {
+						out[n] = pos
+					}
+				}
+			}
+		case *ssa.Phi:
+			for _, e := range x.Edges {
+				fromVal(e, pos, d+1)
+			}
+		}
+	}
+	for _, b := range f.Blocks {
+		if ret, ok := b.Instrs[len(b.Instrs)-1].(*ssa.Return); ok && len(ret.Results) == 1 {
+			fromVal(ret.Results[0], ret.Pos(), 0)
+		}
+	}
+	return out
+}
+
+func debugSign(p *Prog) {
+	for _, f := range p.Funcs {
+		if !p.inScope(f) || f.Blocks == nil || f.Signature.Results().Len() != 1 {
+			continue
+		}
+		if b, ok := f.Signature.Results().At(0).Type().Underlying().(*types.Basic); !ok || b.Kind() != types.Int {
+			continue
+		}
+		n := strings.ToLower(f.Name())
+		if !strings.Contains(n, "compare") && !strings.Contains(n, "cmp") && !strings.HasPrefix(n, "sgn") {
+			continue
+		}
+		cr := constReturns(f)
+		var ks []int64
+		for k := range cr {
+			ks = append(ks, k)
+		}
+		sort.Slice(ks, func(i, j int) bool { return ks[i] < ks[j] })
+		asym := ""
+		for _, k := range ks {
+			if _, ok := cr[-k]; !ok {
+				asym = " ASYM"
+			}
+		}
+		fmt.Println(fnKey(f), ks, asym)
+	}
+}
+
+// oneSidedHelpers: three-way helpers that are one-sided by design.
+var oneSidedHelpers = map[string]string{
+	"semver.mavenUnknownQualifierCompare": "orders an unknown qualifier a against b; the caller (mavenExtension.compare) handles the mirrored case by calling it with the operands swapped and negating",
+}
+
+// signSymmetryRule: a three-way comparator whose non-constant results are all
+// results of other comparators (no arithmetic, no negation) returns +k as a
+// constant exactly if it returns -k as a constant: the delegates are mirrored
+// by swapping the operands, so a constant outcome that has no mirrored
+// constant makes cmp(a,b) > 0 without cmp(b,a) < 0 (the one-sided comparison
+// of a forgotten "other operand is shorter/absent" case).
+func signSymmetryRule(r *Report, p *Prog, rule string, fns []*ssa.Function) int {
+	n := 0
+	for _, f := range fns {
+		if f == nil || f.Blocks == nil || f.Signature.Results().Len() != 1 {
+			continue
+		}
+		if b, ok := f.Signature.Results().At(0).Type().Underlying().(*types.Basic); !ok || b.Kind() != types.Int {
+			continue
+		}
+		n++
+		key := fnKey(f) + ": constant outcomes are mirrored"
+		cr := constReturns(f)
+		// classify the non-constant results
+		arithmetic := false
+		var cls func(v ssa.Value, d int)
+		cls = func(v ssa.Value, d int) {
+			if d > 4 {
+				return
+			}
+			switch x := v.(type) {
+			case *ssa.Const, *ssa.Call, *ssa.Extract:
+			case *ssa.Phi:
+				for _, e := range x.Edges {
+					cls(e, d+1)
+				}
+			default:
+				arithmetic = true // negation, conversion of a bool, subtraction, ...
+			}
+		}
+		for _, b := range f.Blocks {
+			if ret, ok := b.Instrs[len(b.Instrs)-1].(*ssa.Return); ok && len(ret.Results) == 1 {
+				cls(ret.Results[0], 0)
+			}
+		}
+		var missing []int64
+		for k := range cr {
+			if _, ok := cr[-k]; !ok {
+				missing = append(missing, k)
+			}
+		}
+		sort.Slice(missing, func(i, j int) bool { return missing[i] < missing[j] })
+		switch {
+		case len(missing) == 0:
+			r.ok(rule, key, p.pos(f.Pos()), fmt.Sprintf("constant results %v are mirrored", sortedInts(cr)))
+		case arithmetic:
+			r.ok(rule, key, p.pos(f.Pos()), "some results are computed (negation/arithmetic), so mirroring need not show in the constants: not judged")
+		case oneSidedHelpers[fnKey(f)] != "":
+			r.ok(rule, key, p.pos(f.Pos()), "one-sided by design: "+oneSidedHelpers[fnKey(f)])
+		default:
+			r.bad(rule, key, p.pos(cr[missing[0]]), fmt.Sprintf("the comparator returns the constant %d but never %d, and its other results are those of delegated comparisons: for the operands swapped there is no path that yields the opposite sign, so it is not antisymmetric (a case such as 'the other operand is shorter' is handled on one side only)", missing[0], -missing[0]))
+		}
+	}
+	return n
+}
+
+func sortedInts(m map[int64]token.Pos) []int64 {
+	var ks []int64
+	for k := range m {
+		ks = append(ks, k)
+	}
+	sort.Slice(ks, func(i, j int) bool { return ks[i] < ks[j] })
+	return ks
+}
+
+// threeWayFns: in-scope functions returning int whose name marks them as comparators, in the given packages.
+func threeWayFns(p *Prog, pkgs ...string) []*ssa.Function {
+	var out []*ssa.Function
+	for _, f := range p.Funcs {
+		if !p.inScope(f) || f.Blocks == nil || f.Synthetic != "" || f.Pkg == nil {
+			continue
+		}
+		okPkg := false
+		for _, pk := range pkgs {
+			if f.Pkg.Pkg.Path() == modPrefix+pk {
+				okPkg = true
+			}
+		}
+		n := strings.ToLower(f.Name())
+		if okPkg && (strings.Contains(n, "compare") || strings.Contains(n, "cmp")) {
+			out = append(out, f)
+		}
+	}
+	sort.Slice(out, func(i, j int) bool { return fnKey(out[i]) < fnKey(out[j]) })
+	return out
+}
+
+// mapOrderRule: a three-way comparator (and what it calls in its own package)
+// does not iterate over a map: Go randomises map iteration, so a sign decided
+// inside such a loop differs from call to call.
+func mapOrderRule(r *Report, p *Prog, rule string, fns []*ssa.Function) int {
+	n := 0
+	for _, f := range fns {
+		if f == nil || f.Blocks == nil {
+			continue
+		}
+		n++
+		seen := map[*ssa.Function]bool{}
+		var bad []string
+		var walk func(g *ssa.Function, d int)
+		walk = func(g *ssa.Function, d int) {
+			if g == nil || seen[g] || g.Blocks == nil || d > 4 {
+				return
+			}
+			seen[g] = true
+			for _, b := range g.Blocks {
+				for _, in := range b.Instrs {
+					switch x := in.(type) {
+					case *ssa.Range:
+						if _, ok := x.X.Type().Underlying().(*types.Map); ok {
+							bad = append(bad, p.pos(x.Pos())+" in "+fnKey(g))
+						}
+					case ssa.CallInstruction:
+						if sc := x.Common().StaticCallee(); sc != nil && sc.Pkg == f.Pkg && sc.Signature.Results().Len() == 1 {
+							if bt, ok := sc.Signature.Results().At(0).Type().Underlying().(*types.Basic); ok && bt.Kind() == types.Int {
+								walk(sc, d+1)
+							}
+						}
+					}
+				}
+			}
+		}
+		walk(f, 0)
+		key := fnKey(f) + ": no map iteration"
+		if len(bad) > 0 {
+			sort.Strings(bad)
+			r.bad(rule, key, strings.SplitN(bad[0], " ", 2)[0], "a three-way comparator iterates over a map ("+strings.Join(bad, "; ")+"): the first differing entry it meets, and with it the sign it returns, depends on Go's randomised iteration order, so the order is not deterministic, antisymmetric or transitive")
+		} else {
+			r.ok(rule, key, p.pos(f.Pos()), "no range over a map in the comparator or the same-package three-way functions it calls")
+		}
+	}
+	return n
 }
